@@ -67,7 +67,7 @@ def mc_replay(c, model, cfg, label, workers=8, coverage=False, timeout=7200):
     c.add_samples(r.cases_path, 2)
     if not r.error and r.cases:
         rr = run_replay(r.cases_path, name=os.path.basename(cfg))
-        c.add_replay(rr, label)
+        c.add_replay(rr, label, r.cases_path)
     return r
 
 
@@ -162,7 +162,77 @@ def c08(tier):
                     assumptions=TRUST + ["std::collections::hash_map::DefaultHasher with fixed keys"])
 
 
+def beh_key(case):
+    """Group key of a forking behaviour: the inputs and the calls, not the expectations."""
+    if case.get("k") != "pathbeh":
+        return None
+    return json.dumps([case["kind"], case["pre"], case["suf"], case["init"],
+                       [[s["op"], s["arg"], s["args"]] for s in case["steps"]]])
+
+
+EDIT_TRUST = TRUST + ["documented disambiguation rules R1-R3 as stated in C05 (spec/Editor.tla); TLC proves them "
+                      "sufficient for validity and for re-parsing to the intended components"]
+
+
+def c04(tier):
+    c = new_check("C04", tier)
+    c.group_key = beh_key
+    for model, cfg in cfgs("mc/MC_Editor", tier, [""]):
+        mc_replay(c, model, cfg, "every edge (mutator x argument) from every text reachable within the bound")
+    for model, cfg in cfgs("mc/MC_PathMut", tier, [""]):
+        mc_replay(c, model, cfg, "call sequences through one path handle")
+    for model, cfg in cfgs("mc/MC_AuthMut", tier, [""]):
+        mc_replay(c, model, cfg, "call sequences through one authority handle")
+    for model, cfg in cfgs("mc/MC_Paths", tier, [""]):
+        mc_replay(c, model, cfg, "in-place normalisation stand-alone and inside references")
+    return c.finish(rule="editor state graph: nodes = texts reachable within the length bound from 5 initial buffers, "
+                         "edges = every mutator with every vocabulary argument; plus handle behaviours",
+                    assumptions=EDIT_TRUST)
+
+
+def c05(tier):
+    c = new_check("C05", tier)
+    for model, cfg in cfgs("mc/MC_Editor", tier, [""]):
+        mc_replay(c, model, cfg, "setter edges: expected text fixed by the specification (R1-R3 mandatory exactly when needed)")
+    return c.finish(rule="the five setters with every vocabulary argument from every reachable text",
+                    assumptions=EDIT_TRUST)
+
+
+def c10(tier):
+    c = new_check("C10", tier)
+    c.group_key = beh_key
+    for model, cfg in cfgs("mc/MC_PathMut", tier, [""]):
+        mc_replay(c, model, cfg, "all call sequences of bounded depth through one path handle, in 6 contexts")
+    for model, cfg in cfgs("mc/MC_Editor", tier, [""]):
+        mc_replay(c, model, cfg, "single path-editing calls from every reachable text")
+    return c.finish(rule="contexts x initial paths x all sequences of push/pop/clear/symbolic_push/symbolic_append/normalize",
+                    assumptions=EDIT_TRUST)
+
+
+def c11(tier):
+    c = new_check("C11", tier)
+    for model, cfg in cfgs("mc/MC_AuthMut", tier, [""]):
+        mc_replay(c, model, cfg, "all call sequences of bounded depth through one authority handle; exact view and text after each call")
+    for model, cfg in cfgs("mc/MC_Editor", tier, [""]):
+        mc_replay(c, model, cfg, "single authority-editing calls from every reachable text")
+    return c.finish(rule="initial references x all sequences of set_userinfo/set_host/set_port",
+                    assumptions=EDIT_TRUST)
+
+
+def c19(tier):
+    c = new_check("C19", tier)
+    for model, cfg in cfgs("mc/MC_Pct", tier, [""]):
+        mc_replay(c, model, cfg, "component texts over a token alphabet covering every class of Unicode Table 3-7")
+    return c.finish(rule="token strings of bounded length for user info, host, segment, query, fragment of both families",
+                    assumptions=TRUST + ["Unicode Table 3-7 transcription in spec/Pct.tla (TLC checks the UTF-8 round trip)"])
+
+
 PIPELINES = {
+    "C04": c04,
+    "C05": c05,
+    "C10": c10,
+    "C11": c11,
+    "C19": c19,
     "C06": c06,
     "C07": c07,
     "C08": c08,
